@@ -50,6 +50,8 @@ pub struct BfsResult {
     pub unstable: Vec<Violation>,
     pub known: BTreeMap<String, (usize, Violation)>,
     pub tainted: usize,
+    /// executions not judged, by the listed hazard that fired first
+    pub tainted_by: std::collections::BTreeMap<String, usize>,
     pub judged_strictly: usize,
     pub counters: BTreeMap<String, u64>,
     pub outcomes: BTreeSet<String>,
@@ -210,6 +212,7 @@ pub fn bfs(spec: &BfsSpec) -> BfsResult {
                         }
                         "tainted" => {
                             res.tainted += 1;
+                            *res.tainted_by.entry(rep.findings.first().cloned().unwrap_or_else(|| "?".into())).or_insert(0) += 1;
                             if !rep.stop && !rep.key.is_empty() && seen.insert(rep.key.clone()) {
                                 new_states += 1;
                                 next.push(h);
